@@ -113,11 +113,32 @@ def run(r: Run):
     skipped = 0
     ts = sorted(set(grid + extra))
     mlist = masses + [Fraction(10 ** 6), Fraction(10 ** 9)]
-    lines = [f"poissonn\t{fr(m)}\t" + ",".join(fr(t) for t in ts) for m in mlist]
+    # thresholds placed just BELOW the point where the n-th term stops qualifying: 1 - share_n * (1 + eps), the nearest double.
+    # The loop's own error is a few roundings per step ((2n+8)u relative), so a gap of 2e-14 at n <= 3 and of 3e-9 anywhere is
+    # decided the same way by every faithful implementation — a formulation that rounds `1 - share` onto the coarse grid
+    # next to 1 (spacing 1.1e-16 ABSOLUTE) is not.
+    base_ts = ts
+    ts_by_mass = {}
+    for m in mlist:
+        tl = list(base_ts)
+        if 0 < m <= 1000:
+            lam = m / 1800
+            term, acc = Fraction(1), Fraction(1)
+            for n in range(1, 9):
+                term = term * lam / n
+                acc += term
+                share = term / acc
+                for eps in (Fraction(3, 10 ** 9), Fraction(1, 10 ** 11), Fraction(2, 10 ** 14)):
+                    tf = float(1 - share * (1 + eps))
+                    if 0 < tf < 1:
+                        tl.append(Fraction(tf))
+        ts_by_mass[m] = sorted(set(tl))
+    lines = [f"poissonn\t{fr(m)}\t" + ",".join(fr(t) for t in ts_by_mass[m]) for m in mlist]
     impl_all = r.impl("poisson", lines)
     model_all = r.model("poisson", [l for l, m in zip(lines, mlist) if m <= 100000])
     model_by_mass = dict(zip([m for m in mlist if m <= 100000], model_all))
     for m, il_all in zip(mlist, impl_all):
+        ts = ts_by_mass[m]
         ivals = il_all.split(" ")
         mvals = model_by_mass[m].split(" ") if m in model_by_mass else [None] * len(ts)
         if len(ivals) != len(ts) or len(mvals) != len(ts):
@@ -141,7 +162,9 @@ def run(r: Run):
             if ml is not None:
                 mn, margin_s, nspec = ml.split(":")
                 margin = None if margin_s == "inf" else Fraction(margin_s)
-                if margin is not None and margin < MARGIN:
+                # what a faithful f64 loop can decide: (2n+8) roundings, with a factor 4 of slack
+                safe = 4 * (2 * int(nspec) + 8) * Fraction(1, 2 ** 53)
+                if margin is not None and margin < safe:
                     skipped += 1
                 elif str(n) != nspec:
                     corr_ok = False
